@@ -457,9 +457,11 @@ class Assign(Statement, AssignBase):
     def get_read_variables(self):
         result = super().get_read_variables()
 
-        # The loop bounds are evaluated by this statement.
-        for _ident, start, end in self.loops:
-            result = result | get_variables(start) | get_variables(end)
+        # The loop bounds are evaluated by this statement, and the loop
+        # variables are used by it even if the loop body does not mention them.
+        for ident, start, end in self.loops:
+            result = (result | frozenset([ident])
+                    | get_variables(start) | get_variables(end))
 
         return result
 
